@@ -150,10 +150,11 @@ class _G:
     """One generation run."""
 
     def __init__(self, rng, size=2, adversarial=True, directive_deprecation=False, plain_names=False,
-                 override_specified=False):
+                 override_specified=False, incremental=False):
         self.rng, self.size, self.adv = rng, size, adversarial
         self.dir_depr = directive_deprecation
         self.override_specified = override_specified
+        self.incremental = incremental
         self.used = set(BUILTIN_SCALARS) | {"Query", "Mutation", "Subscription"}
         self.plain_names = plain_names
         self.counter = 0
@@ -442,6 +443,18 @@ class _G:
             d = Directive(n, locs[:k(1, 4)], self.args(spec, 3), rng.random() < 0.4, self.text(),
                           self.reason(0.3) if self.dir_depr else None)
             spec.directives.append(d)
+        if self.incremental:
+            # the schema lists the incremental-delivery directives @defer / @stream (not specified directives:
+            # they are printed and rebuilt like any other directive)
+            for d in (Directive("defer", ["FRAGMENT_SPREAD", "INLINE_FRAGMENT"],
+                                [Arg("if", NN(N("Boolean")), ("v", True), self.text(0.5)), Arg("label", N("String"))],
+                                False, self.text(0.7)),
+                      Directive("stream", ["FIELD"],
+                                [Arg("if", NN(N("Boolean")), ("v", True)), Arg("label", N("String"), None, self.text(0.5)),
+                                 Arg("initialCount", N("Int"), ("v", 0))], False, self.text(0.7))):
+                if rng.random() < 0.8:
+                    d.incremental = True
+                    spec.directives.insert(rng.randint(0, len(spec.directives)), d)
         if self.override_specified:
             spec.std_overrides = self.overrides(spec)
         # final type order
@@ -546,8 +559,10 @@ def has_skip(v):
     return False
 
 
-def gen_spec(rng, size=2, adversarial=True, directive_deprecation=False, override_specified=False):
-    return _G(rng, size, adversarial, directive_deprecation, override_specified=override_specified).build()
+def gen_spec(rng, size=2, adversarial=True, directive_deprecation=False, override_specified=False,
+             incremental=False):
+    return _G(rng, size, adversarial, directive_deprecation, override_specified=override_specified,
+              incremental=incremental).build()
 
 
 # --------------------------------------------------------------------------- spec -> SDL
@@ -680,8 +695,20 @@ def spec_to_sdl(spec):
 # --------------------------------------------------------------------------- spec -> objects
 
 
-def spec_to_schema(spec, rng):
-    """Assemble the schema programmatically (no SDL involved)."""
+_SUBCLASSES = {}
+
+
+def trivial_subclass(cls):
+    """A trivial subclass (class SubX(X): pass) of a library class, one per class."""
+    if cls not in _SUBCLASSES:
+        _SUBCLASSES[cls] = type("Sub" + cls.__name__, (cls,), {})
+    return _SUBCLASSES[cls]
+
+
+def spec_to_schema(spec, rng, subclasses=False):
+    """Assemble the schema programmatically (no SDL involved).
+    subclasses: build about half of the types, wrappers, fields, arguments, enum values and directives as instances
+    of trivial SUBCLASSES of the library classes (applications do: class ModelType(GraphQLObjectType))."""
     from graphql import (DirectiveLocation, GraphQLArgument, GraphQLBoolean, GraphQLDirective, GraphQLEnumType,
                          GraphQLEnumValue, GraphQLField, GraphQLFloat, GraphQLID, GraphQLInputField,
                          GraphQLInputObjectType, GraphQLInt, GraphQLInterfaceType, GraphQLList, GraphQLNonNull,
@@ -691,6 +718,15 @@ def spec_to_schema(spec, rng):
     std = {"Int": GraphQLInt, "Float": GraphQLFloat, "String": GraphQLString, "Boolean": GraphQLBoolean,
            "ID": GraphQLID}
     objs = {}
+    if subclasses:
+        def pick(cls):
+            return lambda *a, **k: (trivial_subclass(cls) if rng.random() < 0.5 else cls)(*a, **k)
+        (GraphQLScalarType, GraphQLObjectType, GraphQLInterfaceType, GraphQLUnionType, GraphQLEnumType,
+         GraphQLInputObjectType, GraphQLList, GraphQLNonNull, GraphQLField, GraphQLArgument, GraphQLInputField,
+         GraphQLEnumValue, GraphQLDirective) = map(pick, (
+            GraphQLScalarType, GraphQLObjectType, GraphQLInterfaceType, GraphQLUnionType, GraphQLEnumType,
+            GraphQLInputObjectType, GraphQLList, GraphQLNonNull, GraphQLField, GraphQLArgument, GraphQLInputField,
+            GraphQLEnumValue, GraphQLDirective))
 
     def ref(t):
         if t[0] == "n":
@@ -810,7 +846,11 @@ def spec_to_schema(spec, rng):
             objs[t.name] = GraphQLUnionType(t.name, (lambda t=t: [objs[m] for m in t.members]), description=t.desc)
     mk_dir = lambda d: GraphQLDirective(d.name, [DirectiveLocation[x] for x in d.locs], args=mk_args(d.args),
                                         is_repeatable=d.repeatable, description=d.desc, deprecation_reason=d.depr)
-    dirs = [mk_dir(d) for d in spec.directives]
+    from graphql import GraphQLDeferDirective, GraphQLStreamDirective
+    real = {"defer": GraphQLDeferDirective, "stream": GraphQLStreamDirective}
+    # the incremental-delivery directives: the library's own objects half of the time
+    dirs = [real[d.name] if getattr(d, "incremental", False) and rng.random() < 0.5 else mk_dir(d)
+            for d in spec.directives]
     own = {d.name: mk_dir(d) for d in spec.std_overrides}   # the schema's own @skip, @deprecated, ...
     std_dirs = [own.get(d.name, d) for d in specified_directives]
     r = rng.random()
@@ -1441,4 +1481,52 @@ def shared_default_probes():
             except Exception:  # noqa: BLE001  (what the history does is not what this probe judges)
                 pass
             out.append((f"shared-default-probe:{name}:{tag}", schema({"a": GraphQLArgument(second, default=d)})))
+    return out
+
+
+# --------------------------------------------------------------------------- class / directive-set probes
+
+
+def class_probes():
+    """Minimal schemas (a) whose types, wrappers, fields and directives are instances of trivial SUBCLASSES of the
+    library classes, one kind at a time and all together; (b) that list the incremental-delivery directives
+    @defer / @stream (the library's objects, or their own SDL definitions).  -> [(key, schema)]"""
+    from graphql import (DirectiveLocation, GraphQLArgument, GraphQLDeferDirective, GraphQLDirective, GraphQLEnumType,
+                         GraphQLEnumValue, GraphQLField, GraphQLInputField, GraphQLInputObjectType, GraphQLInt,
+                         GraphQLInterfaceType, GraphQLList, GraphQLNonNull, GraphQLObjectType, GraphQLScalarType,
+                         GraphQLSchema, GraphQLStreamDirective, GraphQLString, GraphQLUnionType, build_schema,
+                         specified_directives)
+    base = {c.__name__: c for c in (GraphQLScalarType, GraphQLObjectType, GraphQLInterfaceType, GraphQLUnionType,
+                                    GraphQLEnumType, GraphQLInputObjectType, GraphQLList, GraphQLNonNull, GraphQLField,
+                                    GraphQLArgument, GraphQLInputField, GraphQLEnumValue, GraphQLDirective)}
+
+    def make(subs):
+        C = {n: (trivial_subclass(c) if n in subs else c) for n, c in base.items()}
+        sc = C["GraphQLScalarType"]("DateTime", description="a scalar", specified_by_url="https://x/dt")
+        en = C["GraphQLEnumType"]("Color", {"RED": C["GraphQLEnumValue"]("RED"), "BLUE": C["GraphQLEnumValue"]("BLUE")})
+        inp = C["GraphQLInputObjectType"]("Filter", {
+            "c": C["GraphQLInputField"](C["GraphQLList"](C["GraphQLNonNull"](en))),
+            "d": C["GraphQLInputField"](sc)})
+        iface = C["GraphQLInterfaceType"]("Node", {"id": C["GraphQLField"](C["GraphQLNonNull"](GraphQLString))})
+        obj = C["GraphQLObjectType"]("Item", {"id": C["GraphQLField"](C["GraphQLNonNull"](GraphQLString)),
+                                              "at": C["GraphQLField"](sc)}, interfaces=[iface])
+        un = C["GraphQLUnionType"]("Any", [obj])
+        q = C["GraphQLObjectType"]("Query", {
+            "items": C["GraphQLField"](C["GraphQLList"](un), args={"f": C["GraphQLArgument"](inp)}),
+            "node": C["GraphQLField"](iface), "n": C["GraphQLField"](GraphQLInt)})
+        d = C["GraphQLDirective"]("tag", [DirectiveLocation.FIELD], args={"c": C["GraphQLArgument"](en)})
+        return GraphQLSchema(q, types=[obj], directives=list(specified_directives) + [d])
+
+    out = [(f"subclass-probe:{n}", make({n})) for n in base]
+    out.append(("subclass-probe:all", make(set(base))))
+    q = lambda: GraphQLObjectType("Query", {"a": GraphQLField(GraphQLList(GraphQLInt))})
+    out.append(("incremental-probe:listed", GraphQLSchema(
+        q(), directives=[*specified_directives, GraphQLDeferDirective, GraphQLStreamDirective])))
+    out.append(("incremental-probe:listed-first", GraphQLSchema(
+        q(), directives=[GraphQLStreamDirective, GraphQLDeferDirective, *specified_directives])))
+    out.append(("incremental-probe:only-defer", GraphQLSchema(q(), directives=[*specified_directives, GraphQLDeferDirective])))
+    out.append(("incremental-probe:sdl", build_schema(
+        '"own defer"\ndirective @defer(if: Boolean! = true, label: String) on FRAGMENT_SPREAD | INLINE_FRAGMENT\n'
+        'directive @stream(if: Boolean! = true, label: String, initialCount: Int = 0) on FIELD\n'
+        'type Query { a: [Int] }')))
     return out
